@@ -169,6 +169,17 @@ class MediaFile(ModelMixin["MediaFile"], Base):
         abs_path = self.absolute_path(self.stream.directory)
         self.blob.delete_file(abs_path)
 
+    def clear_timing_reference(self) -> None:
+        """
+        Removes the timing reference of the stream if it refers to this file.
+        Must be called before this file is deleted or replaced
+        """
+        if self.stream is None:
+            return
+        ref = self.stream.timing_reference
+        if ref is not None and ref.media_name == self.name:
+            self.stream.timing_reference = None
+
     def as_stream_timing_reference(self) -> StreamTimingReference | None:
         if self.representation is None:
             return None
